@@ -172,7 +172,8 @@ func (r *Router) match(method, path string) (rt *Route, ps Params) {
 	if r.enableCaching {
 		route, ok := r.cachedRoutes.Get(method + path)
 		if ok {
-			return route, route.params
+			// Notice: return a copy, the handlers of the request may modify its params.
+			return route, copyParams(route.params)
 		}
 	}
 
